@@ -125,5 +125,6 @@ theorem unloaded_has_no_handle (r : RT) (name : Bytes) :
     control skeleton the model was written against (`Proofs/Skeletons.lean`, one `rfl` per function
     or clause; DESIGN.md §11.6a) -/
 theorem loader_skeletons : Skeletons.LoaderShape := Skeletons.loader_shape
+theorem f_runtime_runtime_skeletons : Skeletons.F_runtime_runtimeShape := Skeletons.f_runtime_runtime_shape
 
 end MtailVerif.C26
